@@ -1,13 +1,17 @@
 (* C08/Harness.v — comparison of the model with what the Go harness recorded from the real
    implementation (work/C08/Cases_k.v).  Imports only the model and the generated schema. *)
-From Verif Require Export Common.Base C08.Model Generated.OtlpProto.
+From Verif Require Export Common.Base C08.Model C08.Json Generated.OtlpProto Generated.C08JsonDecoders.
 From Coq Require Import String.
 Local Open Scope N_scope.
 
 Definition VB (s : string) : pv := VBytes (hex s).
 
-Definition case : Type := nat * (nat * (pv * (string * N))).
-Definition mkcase (kind m : nat) (v : pv) (hx : string) (sz : N) : case := (kind, (m, (v, (hx, sz)))).
+Definition case : Type := nat * (nat * (pv * (string * (N * jv)))).
+Definition mkcase (kind m : nat) (v : pv) (hx : string) (sz : N) : case := (kind, (m, (v, (hx, (sz, JNull))))).
+Definition mkcasej (kind m : nat) (v : pv) (j : jv) : case := (kind, (m, (v, (EmptyString, (0, j))))).
+
+Definition otlp_to_json := to_json OtlpSchema.
+Definition otlp_of_json := of_json OtlpSchema OtlpJsonDecoders OtlpEnums.
 
 Definition opv_eqb (a b : option pv) : bool := option_eqb pv_eqb a b.
 
@@ -17,9 +21,15 @@ Definition opv_eqb (a b : option pv) : bool := option_eqb pv_eqb a b.
    kind 1: bytes -> value through the generated Unmarshal.  v = VNone (rejected) | VSome tree.
      one-sided: whenever the MODEL accepts the bytes the implementation accepted them and
      built the same value.
-   kind 2: same through a decode path that applies the deprecated-scope migration. *)
+   kind 2: same through a decode path that applies the deprecated-scope migration.
+   kind 3: a JSON text (oracle only; nothing to compare).
+   kind 4: value -> JSON tree.  v = the generated value, j = the real MarshalJSON output parsed into
+     a tree along the schema: model to_json = real tree (modulo the order of object entries).
+   kind 5: JSON tree -> value.  j = a document (as marshalled, or rewritten into the alternate
+     forms), v = VNone (rejected) | VSome (real UnmarshalJSON result): whenever the MODEL accepts
+     the document the implementation accepted it and built the same value. *)
 Definition check_case (c : case) : bool :=
-  let '(kind, (m, (v, (hx, sz)))) := c in
+  let '(kind, (m, (v, (hx, (sz, j))))) := c in
   let b := hex hx in
   match kind with
   | O =>
@@ -27,23 +37,34 @@ Definition check_case (c : case) : bool :=
       && (size OtlpSchema m v =? sz) && (blen b =? sz)
       && canonical OtlpSchema m (norm OtlpSchema m v)
       && opv_eqb (decode OtlpSchema m b) (Some (norm OtlpSchema m v))
-  | S O =>
+  | 1%nat =>
       match decode OtlpSchema m b with
       | None => true
       | Some d => pv_eqb v (VSome d) && canonical OtlpSchema m (norm OtlpSchema m d)
       end
-  | _ =>
+  | 2%nat =>
       match decode OtlpSchema m b with
       | None => true
       | Some d => pv_eqb v (VSome (migrate OtlpSchema m d))
+      end
+  | 3%nat => true
+  | 4%nat => jv_eqb (otlp_to_json m v) j
+  | _ =>
+      match otlp_of_json m j with
+      | None => true
+      | Some d => pv_eqb v (VSome d)
       end
   end.
 
 (* for replay files: what the model computes for the case's input *)
 Definition model_out (c : case) : (bytes * N) * option pv :=
-  let '(kind, (m, (v, (hx, sz)))) := c in
+  let '(kind, (m, (v, (hx, (sz, j))))) := c in
   match kind with
   | O => ((encode OtlpSchema m v, size OtlpSchema m v), decode OtlpSchema m (encode OtlpSchema m v))
-  | S O => (([], 0), decode OtlpSchema m (hex hx))
-  | _ => (([], 0), option_map (migrate OtlpSchema m) (decode OtlpSchema m (hex hx)))
+  | 1%nat => (([], 0), decode OtlpSchema m (hex hx))
+  | 2%nat => (([], 0), option_map (migrate OtlpSchema m) (decode OtlpSchema m (hex hx)))
+  | _ => (([], 0), otlp_of_json m j)
   end.
+
+Definition model_json (c : case) : jv :=
+  let '(kind, (m, (v, (hx, (sz, j))))) := c in otlp_to_json m v.
